@@ -10,7 +10,7 @@ from prosemirror.model import Fragment, Node, Slice
 
 ID = "C02"
 CORR_MODULE = "Corr.C02"
-LEVEL = "exploration"
+LEVEL = "proof"
 SHARD = 200
 
 _INFO: dict[str, SchemaInfo] = {}
